@@ -291,7 +291,7 @@ def finish(prop, tier, seed, results, task_secs, t_start, partial=False):
         code = 3
     elif undecided or vacuous:
         code = 2
-    elif n_obl + len(bnd) < floor:
+    elif n_obl + len(bnd) < floor and not partial:
         print(f'vacuity guard: only {n_obl + len(bnd)} obligations generated, floor is {floor}', file=sys.stderr)
         code = 3
     for r in undecided + errors + vacuous:
